@@ -337,3 +337,38 @@ func VerifCronAddThenRemove() {
 	<-ctx.Done()
 	zzverif.Cover("cron_add_then_remove_done")
 }
+
+// An entry added while the scheduler runs, due at the same instant as (or later than) the entry the scheduler is
+// waiting for, with an entry of a much longer period in the list as well: at every activation instant each entry
+// that is due starts exactly once - the new entry is not overlooked because of where it sits in the scheduler's list -
+// and Entries reports a Next in the future for each.
+//
+//verif:harness prop=C05 name=cron_add_while_running threads=8 sched=delay preempt=2 t_preempt=3 unwind=14 witness=lenient
+func VerifCronAddWhileRunning() {
+	start := zzverif.TimeFromNanos(1_000_000_000_000)
+	clk := zzverifstubs.NewClock(start)
+	c := New(WithClock(clk), WithLogger(vLogger{}), WithLocation(time.UTC))
+	p := time.Duration(1+zzverif.Choose("period", 2)) * time.Second
+	q := time.Duration(1+zzverif.Choose("new_period", 3)) * time.Second
+	var runsA, runsB, runsLong int
+	c.Schedule(vEvery{p}, FuncJob(func() { zzverif.Ghost(func() { runsA++ }) }))
+	c.Schedule(vEvery{time.Hour}, FuncJob(func() { zzverif.Ghost(func() { runsLong++ }) }))
+	c.Start()
+	zzverif.WaitQuiescent()
+	c.Schedule(vEvery{q}, FuncJob(func() { zzverif.Ghost(func() { runsB++ }) })) // added at the same clock reading
+	zzverif.WaitQuiescent()
+	for s := 1; s <= 4; s++ {
+		now := start.Add(time.Duration(s) * time.Second)
+		clk.AdvanceTo(now)
+		zzverif.WaitQuiescent()
+		zzverif.Assert(runsA == int(time.Duration(s)*time.Second/p), "first_entry_once_per_activation")
+		zzverif.Assert(runsB == int(time.Duration(s)*time.Second/q), "entry_added_while_running_once_per_activation")
+		for _, e := range c.Entries() {
+			zzverif.Assert(e.Next.After(now), "entries_report_a_future_next")
+		}
+	}
+	zzverif.Assert(runsLong == 0, "long_period_entry_not_started")
+	ctx := c.Stop()
+	<-ctx.Done()
+	zzverif.Cover("cron_add_while_running_done")
+}
